@@ -373,6 +373,14 @@ package ps
 //@   on-call (*TPS).validateCommitments(t):
 //@     use distinctCard(tps.parties)
 //@     use subsetCardEq(keys(tps.publicKeysOfParties), elems(tps.parties, len(tps.parties)))
+//@   // the waits of the phases are woken by the context monitor: it watches THIS context and is started before the first wait
+//@   // (safety form of 'never blocks once the context expires'; whether the monitor goroutine then runs is scheduling)
+//@   ghost-var monitored bool
+//@   on-call (*TPS).monitorContextTimeout(t1, cx1):
+//@     assert [this-context] cx1 == ctx
+//@     ghost monitored = true
+//@   on-call (*TPS).shareDistribution(t2, cx2, xs, ys):
+//@     assert [monitor-running] monitored
 //@   at return:
 //@     assert [timeout-is-error] done(ctx) ==> result.1 != nil
 //@     assert [checked] result.1 == nil ==> forall p uint16 :: p in tps.publicKeysOfParties && p != tps.Party ==> sha256(tps.publicKeysOfParties[p]) == string(tps.commitments[p])
